@@ -18,9 +18,9 @@ CLAIMED = {
    note="Chains of length <= 5 over the fixed directory skeleton; two registration orders per chain.",
    technique="TLA+ case table (TLC) + replay, per-column probes of def lines"),
  "C03": dict(level=MC, ref="DESIGN.md section 4 C03",
-   text="Extract.tla states the documented extraction rules over an abstract function record and TLC enumerates the feature product group by group (decorator spelling/form/placement, parameter kinds, body x return annotation, docstring layouts); every record is rendered, re-extracted by an independent CPython-based implementation of the rules (must equal the specification, else tool error) and analysed by the real library; definitions are compared field by field (name, line span, docstring, return type, dependencies, scope, yield line, autouse) and usages as bags; the repository's tests/test_project corpus is compared CPython-vs-analyzer as well.",
+   text="Extract.tla states the documented extraction rules over an abstract function record and TLC enumerates the feature product group by group (decorator spelling/form/placement, parameter kinds, body x return annotation, docstring layouts); every record is rendered, re-extracted by an independent CPython-based implementation of the rules (must equal the specification, else tool error) and analysed by the real library; definitions are compared field by field (name, line span, docstring, return type, dependencies, scope, yield line, autouse) and usages as bags; the repository's tests/test_project corpus is compared CPython-vs-analyzer as well; and every text the repository's own 710 tests hand to the analyzer (suite run with the cfg-guarded trace hook) is projected by CPython and the recorded index slices are validated by TLC against SuiteTrace.tla.",
    note="~1500 function records + 22 corpus files; presence inside conditional blocks (documented limitation) and `request` parameters are not judged.",
-   technique="TLA+ rule operators + feature-product table (TLC) + three-way comparison with CPython extraction and the real analyzer"),
+   technique="TLA+ rule operators + feature-product table (TLC) + three-way comparison with CPython extraction and the real analyzer + TLC trace validation of the repository's own test-suite (SuiteTrace.tla)"),
  "C04": dict(level=MC, ref="DESIGN.md section 4 C04",
    text="TLC checks Mirror and RefsInverse on the implementation model for every (layout, order); on the real library references(D) is compared with {u : goto(u) = D} for every definition, duplicates and unresolved usages are checked, the reverse index is compared with the per-file usages, CLI-unused equals 'no incoming usage'.",
    note="Internal-consistency oracle (no reference model needed); LSP-level counts are compared in the binary tier when built.",
@@ -30,9 +30,9 @@ CLAIMED = {
    note="Library-level resolvers; the LSP handlers are thin projections of them.",
    technique="TLA+ case table (TLC) + replay with cross-resolver agreement oracle"),
  "C06": dict(level=MC, ref="DESIGN.md section 4 C06",
-   text="TLC visits every history of full-text versions (incl. unparsable, moved, renamed, removed, re-sent) up to the bound and checks HistoryIndependent / MirrorAlways / NoDangling on the model and RepairedHistoryIndependent on the repaired design; every history is executed on a long-lived real database and on a fresh twin built from the latest valid contents and all answers plus projected maps are compared.",
+   text="TLC visits every history of full-text versions (incl. unparsable, moved, renamed, removed, re-sent) up to the bound and checks HistoryIndependent / MirrorAlways / NoDangling on the model and RepairedHistoryIndependent on the repaired design; every history is executed on a long-lived real database and on a fresh twin built from the latest valid contents and all answers plus projected maps are compared; seeded random histories and every analysis of the repository's own test-suite (trace hook) are validated by TLC against HistoryTrace.tla / SuiteTrace.tla.",
    note="3 files x 5-6 versions, histories of length <= 3 (quick) / 4 (thorough); positional queries inside a currently unparsable document are not compared.",
-   technique="TLA+ state machine over histories (TLC exhaustive) + replay on long-lived vs fresh twin"),
+   technique="TLA+ state machine over histories (TLC exhaustive) + replay on long-lived vs fresh twin + TLC trace validation (random histories; the repository's own test-suite through the trace hook)"),
  "C07": dict(level=MC, ref="DESIGN.md section 4 C07",
    text="TLC visits every interleaving of edits, cached queries, closes and evictions up to the bound, proves WarmEqualsColdRepaired on the repaired design; each history ending in a query runs on a real long-lived database and on a cold twin that received only the edits (files on disk).",
    note="3 files on disk, 4 versions each incl. mutually importing modules; <= 4/5 events with <= 3 non-edit events; eviction emulated per victim through the pub maps.",
